@@ -30,17 +30,17 @@ func init() {
 
 // ---------------------------------------------------------------- environment of a generator function
 
-type trBind struct {
+type trOpsBind struct {
 	kind  string // "gen" (closure producing (Value, x) or x), "val" (machine value bound at generation time), "rv" (reflect.Value of an rval), "child", "next", "typ", "dest", "flag", "opd" (reflect.Value of operand inside closure), "leaf"
 	extr  string // gen: genValueInt...; val: the leaf text
 	child int
 	text  string
 }
 
-type trEnv map[string]trBind
+type trOpsEnv map[string]trOpsBind
 
-func (e trEnv) clone() trEnv {
-	c := trEnv{}
+func (e trOpsEnv) clone() trOpsEnv {
+	c := trOpsEnv{}
 	for k, v := range e {
 		c[k] = v
 	}
@@ -84,7 +84,7 @@ func nodeText(fset *token.FileSet, n ast.Node) string {
 func (t *trFunc) text(n ast.Node) string { return nodeText(t.fset, n) }
 
 // childOf recognises n.child[i] and identifiers bound to it.
-func (t *trFunc) childOf(e ast.Expr, env trEnv) (int, bool) {
+func (t *trFunc) childOf(e ast.Expr, env trOpsEnv) (int, bool) {
 	switch x := e.(type) {
 	case *ast.Ident:
 		if b, ok := env[x.Name]; ok && b.kind == "child" {
@@ -102,7 +102,7 @@ func (t *trFunc) childOf(e ast.Expr, env trEnv) (int, bool) {
 }
 
 // rvalOf recognises cK.rval, n.child[K].rval and identifiers bound to them.
-func (t *trFunc) rvalOf(e ast.Expr, env trEnv) (int, bool) {
+func (t *trFunc) rvalOf(e ast.Expr, env trOpsEnv) (int, bool) {
 	switch x := e.(type) {
 	case *ast.Ident:
 		if b, ok := env[x.Name]; ok && b.kind == "rv" {
@@ -122,53 +122,53 @@ var trValExtr = map[string]string{"vInt": "XVInt", "vUint": "XVUint", "vFloat": 
 var trMethExtr = map[string]string{"Int": "Int", "Uint": "Uint", "Float": "Float", "Complex": "Cplx", "String": "Str", "Bool": "Bool", "Interface": "Iface"}
 
 // bindRHS interprets the right-hand side of a generation-time definition.
-func (t *trFunc) bindRHS(rhs ast.Expr, env trEnv) (trBind, bool) {
+func (t *trFunc) bindRHS(rhs ast.Expr, env trOpsEnv) (trOpsBind, bool) {
 	txt := t.text(rhs)
 	switch txt {
 	case "getExec(n.tnext)":
-		return trBind{kind: "next", text: "NT"}, true
+		return trOpsBind{kind: "next", text: "NT"}, true
 	case "getExec(n.fnext)":
-		return trBind{kind: "next", text: "NF"}, true
+		return trOpsBind{kind: "next", text: "NF"}, true
 	case "n.typ.concrete().TypeOf()":
-		return trBind{kind: "typ", text: "concrete"}, true
+		return trOpsBind{kind: "typ", text: "concrete"}, true
 	case "n.typ.TypeOf()":
-		return trBind{kind: "typ", text: "plain"}, true
+		return trOpsBind{kind: "typ", text: "plain"}, true
 	case "n.typ.TypeOf().Kind() == reflect.Interface":
-		return trBind{kind: "flag", text: "isInterface"}, true
+		return trOpsBind{kind: "flag", text: "isInterface"}, true
 	case "genValueOutput(n, typ)":
 		if b, ok := env["typ"]; !ok || b.text != "concrete" {
-			return trBind{}, false
+			return trOpsBind{}, false
 		}
-		return trBind{kind: "dest", text: "DOut"}, true
+		return trOpsBind{kind: "dest", text: "DOut"}, true
 	case "genValueOutput(n, reflect.TypeOf(true))":
-		return trBind{kind: "dest", text: "DOutBool"}, true
+		return trOpsBind{kind: "dest", text: "DOutBool"}, true
 	case "genValue(n)":
-		return trBind{kind: "dest", text: "DNode"}, true
+		return trOpsBind{kind: "dest", text: "DNode"}, true
 	case "isMapEntry(c0)":
-		return trBind{kind: "flag", text: "setMap"}, true
+		return trOpsBind{kind: "flag", text: "setMap"}, true
 	case "c0.typ.TypeOf()":
-		return trBind{kind: "optyp", child: 0}, true
+		return trOpsBind{kind: "optyp", child: 0}, true
 	case "c1.typ.TypeOf()":
-		return trBind{kind: "optyp", child: 1}, true
+		return trOpsBind{kind: "optyp", child: 1}, true
 	case "n.typ.rtype":
-		return trBind{kind: "typ", text: "rtype"}, true
+		return trOpsBind{kind: "typ", text: "rtype"}, true
 	}
 	if c, ok := t.childOf(rhs, env); ok {
-		return trBind{kind: "child", child: c}, true
+		return trOpsBind{kind: "child", child: c}, true
 	}
 	if c, ok := t.rvalOf(rhs, env); ok {
-		return trBind{kind: "rv", child: c}, true
+		return trOpsBind{kind: "rv", child: c}, true
 	}
 	if call, ok := rhs.(*ast.CallExpr); ok && len(call.Args) == 1 {
 		if id, ok := call.Fun.(*ast.Ident); ok {
 			if x, ok := trGenExtr[id.Name]; ok {
 				if c, ok := t.childOf(call.Args[0], env); ok {
-					return trBind{kind: "gen", extr: x, child: c}, true
+					return trOpsBind{kind: "gen", extr: x, child: c}, true
 				}
 			}
 			if x, ok := trValExtr[id.Name]; ok {
 				if c, ok := t.rvalOf(call.Args[0], env); ok {
-					return trBind{kind: "leaf", text: fmt.Sprintf("(L %s %d)", x, c)}, true
+					return trOpsBind{kind: "leaf", text: fmt.Sprintf("(L %s %d)", x, c)}, true
 				}
 			}
 		}
@@ -177,12 +177,12 @@ func (t *trFunc) bindRHS(rhs ast.Expr, env trEnv) (trBind, bool) {
 		if sel, ok := call.Fun.(*ast.SelectorExpr); ok {
 			if c, ok := t.rvalOf(sel.X, env); ok {
 				if m, ok := trMethExtr[sel.Sel.Name]; ok {
-					return trBind{kind: "leaf", text: fmt.Sprintf("(L XRv%s %d)", m, c)}, true
+					return trOpsBind{kind: "leaf", text: fmt.Sprintf("(L XRv%s %d)", m, c)}, true
 				}
 			}
 		}
 	}
-	return trBind{}, false
+	return trOpsBind{}, false
 }
 
 var trKindNames = map[string]string{"Int": "KInt", "Int8": "KInt8", "Int16": "KInt16", "Int32": "KInt32", "Int64": "KInt64",
@@ -231,7 +231,7 @@ var trPreamble = map[string]bool{
 	"return":                                                                                                  true,
 }
 
-func (t *trFunc) walk(stmts []ast.Stmt, env trEnv, g trGuards) error {
+func (t *trFunc) walk(stmts []ast.Stmt, env trOpsEnv, g trGuards) error {
 	for _, st := range stmts {
 		if trPreamble[t.text(st)] {
 			continue
@@ -445,7 +445,7 @@ var trBinOps = map[token.Token]string{token.ADD: "Add", token.SUB: "Sub", token.
 var trUnOps = map[token.Token]string{token.SUB: "Neg", token.XOR: "BitNot", token.NOT: "Not", token.ADD: "Pos"}
 
 // expr renders an expression of a closure body as an OpDsl.ex term.
-func (t *trFunc) expr(e ast.Expr, env trEnv) (string, error) {
+func (t *trFunc) expr(e ast.Expr, env trOpsEnv) (string, error) {
 	switch x := e.(type) {
 	case *ast.ParenExpr:
 		return t.expr(x.X, env)
@@ -514,7 +514,7 @@ func (t *trFunc) expr(e ast.Expr, env trEnv) (string, error) {
 
 // opdValue recognises an expression denoting the reflect.Value of operand c inside a closure:
 // g(f) with g := genValue(c), or an identifier bound to it.
-func (t *trFunc) opdValue(e ast.Expr, env trEnv) (int, bool) {
+func (t *trFunc) opdValue(e ast.Expr, env trOpsEnv) (int, bool) {
 	switch x := e.(type) {
 	case *ast.Ident:
 		if b, ok := env[x.Name]; ok && b.kind == "opd" {
@@ -534,7 +534,7 @@ var trSetters = map[string]string{"SetInt": "SInt", "SetUint": "SUint", "SetFloa
 
 // setCall parses `D.SetX(expr)` / `D.Set(reflect.ValueOf(expr).Convert(typ))` / `D.Set(value(f))`.
 // D is dest(f) or a bound operand Value. Returns dest, setter, body.
-func (t *trFunc) setCall(e ast.Expr, env trEnv) (dest, set, body string, err error) {
+func (t *trFunc) setCall(e ast.Expr, env trOpsEnv) (dest, set, body string, err error) {
 	call, ok := e.(*ast.CallExpr)
 	if !ok || len(call.Args) != 1 {
 		return "", "", "", t.errf(e, "unsupported statement %q", t.text(e))
@@ -596,7 +596,7 @@ func (t *trFunc) setCall(e ast.Expr, env trEnv) (dest, set, body string, err err
 	return "", "", "", t.errf(e, "unsupported Set argument %q", t.text(arg))
 }
 
-func (t *trFunc) nextOf(r *ast.ReturnStmt, env trEnv) (string, error) {
+func (t *trFunc) nextOf(r *ast.ReturnStmt, env trOpsEnv) (string, error) {
 	if len(r.Results) != 1 {
 		return "", t.errf(r, "closure return without a value")
 	}
@@ -612,7 +612,7 @@ func (t *trFunc) nextOf(r *ast.ReturnStmt, env trEnv) (string, error) {
 }
 
 // closure parses one `func(f *frame) bltn {...}` and appends its row.
-func (t *trFunc) closure(fl *ast.FuncLit, outer trEnv, g trGuards) error {
+func (t *trFunc) closure(fl *ast.FuncLit, outer trOpsEnv, g trGuards) error {
 	if t.text(fl.Type) != "func(f *frame) bltn" {
 		return t.errf(fl, "unexpected closure type %q", t.text(fl.Type))
 	}
@@ -644,20 +644,20 @@ func (t *trFunc) closure(fl *ast.FuncLit, outer trEnv, g trGuards) error {
 			}
 			v0, v1 := as.Lhs[0].(*ast.Ident), as.Lhs[1].(*ast.Ident)
 			if v0.Name != "_" {
-				env[v0.Name] = trBind{kind: "opd", child: b.child}
+				env[v0.Name] = trOpsBind{kind: "opd", child: b.child}
 			}
-			env[v1.Name] = trBind{kind: "leaf", text: fmt.Sprintf("(L %s %d)", b.extr, b.child)}
+			env[v1.Name] = trOpsBind{kind: "leaf", text: fmt.Sprintf("(L %s %d)", b.extr, b.child)}
 		case 1:
 			v := as.Lhs[0].(*ast.Ident)
 			if c, ok := t.opdValue(rhs, env); ok { // v := v0(f)
-				env[v.Name] = trBind{kind: "opd", child: c}
+				env[v.Name] = trOpsBind{kind: "opd", child: c}
 				continue
 			}
 			ex, err := t.expr(rhs, env) // i0 := v0(f).Interface() ; s1 := v1(f)
 			if err != nil {
 				return err
 			}
-			env[v.Name] = trBind{kind: "leaf", text: ex}
+			env[v.Name] = trOpsBind{kind: "leaf", text: ex}
 		default:
 			return t.errf(as, "unsupported extraction %q", t.text(as))
 		}
@@ -750,7 +750,7 @@ func (t *trFunc) closure(fl *ast.FuncLit, outer trEnv, g trGuards) error {
 }
 
 // foldStmt parses `n.rval.SetX(expr)` in the *Const functions.
-func (t *trFunc) foldStmt(s *ast.ExprStmt, env trEnv, g trGuards) (trRow, error) {
+func (t *trFunc) foldStmt(s *ast.ExprStmt, env trOpsEnv, g trGuards) (trRow, error) {
 	d, set, body, err := t.setCall(s.X, env)
 	if err != nil {
 		return trRow{}, err
@@ -788,7 +788,7 @@ func trRowsOf(fset *token.FileSet, fd *ast.FuncDecl) ([]trRow, error) {
 	if nodeText(fset, fd.Type) != "func(n *node)" {
 		return nil, t.errf(fd, "unexpected signature %q", nodeText(fset, fd.Type))
 	}
-	env := trEnv{"true": {kind: "leaf", text: "(KB true)"}, "false": {kind: "leaf", text: "(KB false)"}}
+	env := trOpsEnv{"true": {kind: "leaf", text: "(KB true)"}, "false": {kind: "leaf", text: "(KB false)"}}
 	g := trGuards{guard: "GNone", form: "FNone"}
 	if err := t.walk(fd.Body.List, env, g); err != nil {
 		return nil, err
